@@ -995,29 +995,67 @@ func ownerNamed(a ssa.Value) *types.Named {
 }
 
 // isFresh reports whether v is an allocation of the current activation on
-// every phi path (Alloc, MakeMap, MakeSlice, MakeChan, composite literal).
+// every phi path (Alloc, MakeMap, MakeSlice, MakeChan, composite literal,
+// append onto such). Cycles through loop phis are treated optimistically.
 func isFresh(v ssa.Value) bool {
-	ok := true
-	n := 0
-	phiLeaves(v, func(l ssa.Value) {
-		n++
-		switch x := l.(type) {
-		case *ssa.Alloc, *ssa.MakeMap, *ssa.MakeSlice, *ssa.MakeChan, *ssa.MakeClosure:
-		case *ssa.Slice:
-			if !isFresh(x.X) {
-				ok = false
-			}
-		case *ssa.Call:
-			// append to a fresh slice yields a slice backed by fresh or newly grown storage
-			if callName(&x.Call) == "builtin.append" && isFresh(x.Call.Args[0]) {
-				return
-			}
-			ok = false
-		default:
-			ok = false
+	seen := map[ssa.Value]bool{}
+	var rec func(v ssa.Value) bool
+	rec = func(v ssa.Value) bool {
+		v = strip(v)
+		if seen[v] {
+			return true
 		}
-	})
-	return ok && n > 0
+		seen[v] = true
+		switch x := v.(type) {
+		case *ssa.Alloc, *ssa.MakeMap, *ssa.MakeSlice, *ssa.MakeChan, *ssa.MakeClosure:
+			return true
+		case *ssa.Slice:
+			return rec(x.X)
+		case *ssa.Phi:
+			for _, e := range x.Edges {
+				if !rec(e) {
+					return false
+				}
+			}
+			return len(x.Edges) > 0
+		case *ssa.Call:
+			if callName(&x.Call) == "builtin.append" {
+				return rec(x.Call.Args[0])
+			}
+		}
+		return false
+	}
+	return rec(v)
+}
+
+// cellOf returns the variable cell (Alloc) that v is a load of, looking
+// through closure captures; nil if v is not a load of a local variable.
+func cellOf(v ssa.Value) *ssa.Alloc {
+	for {
+		switch x := v.(type) {
+		case *ssa.ChangeType:
+			v = x.X
+			continue
+		case *ssa.MakeInterface:
+			v = x.X
+			continue
+		}
+		break
+	}
+	u, ok := v.(*ssa.UnOp)
+	if !ok || u.Op != token.MUL {
+		return nil
+	}
+	cell := u.X
+	for {
+		fv, ok := cell.(*ssa.FreeVar)
+		if !ok {
+			break
+		}
+		cell = freeVarBinding(fv)
+	}
+	al, _ := cell.(*ssa.Alloc)
+	return al
 }
 
 // referrers returns instructions that use v (nil-safe).
